@@ -6,6 +6,7 @@ package simlint
 import (
 	"bytes"
 	"fmt"
+	"hash/fnv"
 	"os"
 	"os/exec"
 	"runtime"
@@ -236,6 +237,28 @@ func StdBase(scratch string, flags []string, env []string) (*simos.FS, error) {
 	}
 	stdBases[key] = fs
 	return fs.Clone(), nil
+}
+
+// DiskDigest hashes names and contents of all files on the simulated disk.
+// Engines mix it into their execution digests: cache file names are content
+// hashes, so any nondeterminism in what gets cached (e.g. an uncontrolled map
+// iteration whose order ends up in a gob stream) shows up as a digest
+// difference in the determinism self-test, even when the printed output is
+// the same.
+func DiskDigest(fs *simos.FS) uint64 {
+	if fs == nil {
+		return 0
+	}
+	h := fnv.New64a()
+	for _, e := range fs.Walk() {
+		if strings.Contains(e.Path, "/.tmp/") || strings.HasSuffix(e.Path, "-a") || strings.HasSuffix(e.Path, "trim.txt") {
+			continue // index entries and trim.txt carry timestamps of the simulated clock; data files are what matters
+		}
+		b, _ := fs.Peek(e.Path)
+		h.Write([]byte(e.Path))
+		h.Write(b)
+	}
+	return h.Sum64()
 }
 
 // Problems summarises what a kernel result says about the run itself.
